@@ -15,6 +15,10 @@
 #include <yaclib/async/shared_contract.hpp>
 #include <yaclib/async/shared_future.hpp>
 #include <yaclib/async/wait.hpp>
+#include <yaclib/coro/await.hpp>
+#include <yaclib/coro/future.hpp>
+#include <yaclib/coro/on.hpp>
+#include <yaclib/coro/task.hpp>
 #include <yaclib/exe/inline.hpp>
 #include <yaclib/exe/strand.hpp>
 #include <yaclib/lazy/make.hpp>
@@ -110,6 +114,8 @@ enum class Src : std::uint8_t {
   RunVoid,
   RunInline,
   RunAsync,
+  CoroFuture,
+  CoroFutureOn,
   kEagerCount,
   // lazy
   TaskValue = 16,
@@ -120,6 +126,7 @@ enum class Src : std::uint8_t {
   ScheduleVoid,
   LazyContractNow,
   LazyContractLater,
+  CoroTask,
   kLazyEnd
 };
 const char* SrcName(Src s) {
@@ -135,6 +142,9 @@ const char* SrcName(Src s) {
     case Src::RunVoid: return "Run(e, f->void)";
     case Src::RunInline: return "Run(f->T)";
     case Src::RunAsync: return "Run(e, f->Future<T>)";
+    case Src::CoroFuture: return "coroutine returning Future<T>";
+    case Src::CoroFutureOn: return "coroutine returning Future<T> after co_await On(e)";
+    case Src::CoroTask: return "lazy coroutine returning Task<T>";
     case Src::TaskValue: return "MakeTask(value)";
     case Src::TaskError: return "MakeTask(error)";
     case Src::TaskVoid: return "MakeTask<void>()";
@@ -151,8 +161,9 @@ const char* kSrcOutNames[] = {"value", "error", "exception", "dropped/throws"};
 
 enum class Sink : std::uint8_t { Get, WaitTouch, Detach, DetachInline, DetachOn, kCount };
 const char* kSinkNames[] = {"Get", "Wait+Touch", "Detach()", "DetachInline(f)", "Detach(e,f)"};
-enum class Start : std::uint8_t { ToFutureGet, ToFutureOnGet, Get, Detach, DetachOn, AsInnerTask, DropUnstarted, kCount };
-const char* kStartNames[] = {"ToFuture().Get", "ToFuture(e).Get", "Get", "Detach()", "Detach(e)", "returned from an eager callback", "dropped unstarted"};
+enum class Start : std::uint8_t { ToFutureGet, ToFutureOnGet, Get, Detach, DetachOn, AsInnerTask, DropUnstarted, CoAwait, kCount };
+const char* kStartNames[] = {"ToFuture().Get", "ToFuture(e).Get", "Get", "Detach()", "Detach(e)", "returned from an eager callback", "dropped unstarted",
+                             "co_await in a coroutine"};
 
 // executors: index -> what the proxy wraps
 enum Ex : std::uint8_t { kExInline = 0, kExPool = 1, kExStrand = 2, kExStopped = 3, kExPool2 = 4, kExCount = 5 };
@@ -199,7 +210,7 @@ class Case final : public sim::CaseBase {
     const bool p03 = profile == "c03";
     auto& p = prog;
     p.lazy = p12 ? true : (p05 ? false : g.Draw(3) == 2);
-    const std::uint32_t max_len = 4;
+    const std::uint32_t max_len = sim::Thorough() ? 6 : 4;
     const std::uint32_t len = g.Draw(max_len + 1);
     p.pool_workers = 1 + g.Draw(2);
     VT vt;
@@ -225,6 +236,9 @@ class Case final : public sim::CaseBase {
       case Src::RunVoid: vt = VT::Vo; on = true; if (p.src_out == SrcOut::Error) p.src_out = SrcOut::Value; break;
       case Src::RunInline: vt = VT::Tr; on = false; if (p.src_out == SrcOut::Error) p.src_out = SrcOut::Value; break;
       case Src::RunAsync: vt = VT::Tr; on = true; break;
+      case Src::CoroFuture:
+      case Src::CoroFutureOn: vt = VT::Tr; on = false; if (p.src_out == SrcOut::Dropped) p.src_out = SrcOut::Exception; break;
+      case Src::CoroTask: vt = VT::Tr; on = true; if (p.src_out == SrcOut::Dropped) p.src_out = SrcOut::Exception; break;
       case Src::TaskValue: p.src_out = SrcOut::Value; vt = VT::Tr; on = true; break;
       case Src::TaskError: p.src_out = SrcOut::Error; vt = VT::Tr; on = true; break;
       case Src::TaskVoid: p.src_out = SrcOut::Value; vt = VT::Vo; on = true; break;
@@ -234,7 +248,7 @@ class Case final : public sim::CaseBase {
       default: vt = VT::Tr; on = true; break;  // LazyContract*
     }
     if (p.src == Src::RunInline || p.src == Src::ScheduleInline || p.src == Src::TaskValue || p.src == Src::TaskError || p.src == Src::TaskVoid ||
-        p.src == Src::LazyContractNow || p.src == Src::LazyContractLater) {
+        p.src == Src::LazyContractNow || p.src == Src::LazyContractLater || p.src == Src::CoroFuture || p.src == Src::CoroTask) {
       p.src_exec = kExInline;  // these sources carry the library's own inline executor, not a proxy
       src_proxied = false;
     }
@@ -303,7 +317,7 @@ class Case final : public sim::CaseBase {
           s.beh = kPlain;
         }
       }
-      if (p.lazy && p.start == Start::AsInnerTask) {
+      if (p.lazy && (p.start == Start::AsInnerTask || p.start == Start::CoAwait)) {
         p.start = Start::Get;
       }
     }
@@ -355,7 +369,7 @@ class Case final : public sim::CaseBase {
   // offending callback must actually be invoked according to the reference model (faults are never combined with it).
   const char* Known() const final {
     static const char* kKey = "inner-task-head-schedule-or-lazycontract";
-    if (prog.lazy && prog.start == Start::AsInnerTask) {
+    if (prog.lazy && (prog.start == Start::AsInnerTask || prog.start == Start::CoAwait)) {
       const Src s = prog.src;
       if (s == Src::ScheduleT || s == Src::ScheduleInline || s == Src::ScheduleVoid || s == Src::LazyContractNow || s == Src::LazyContractLater) {
         return kKey;
@@ -740,6 +754,24 @@ class Case final : public sim::CaseBase {
     }
   }
 
+  // a coroutine as the source of the pipeline: eager (Future) or lazy (Task); optionally hops to an executor first
+  template <typename R>
+  static R CoroSource(Case* c, std::uint32_t id, int exec) {
+    T frame_local{id + 50000};
+    c->LogInvoke(-1, Outcome{});
+    if (exec >= 0) {
+      co_await yaclib::On(c->Exec(static_cast<std::uint8_t>(exec)));
+    }
+    (void)frame_local.Read("coroutine frame local");
+    if (c->prog.src_out == SrcOut::Exception) {
+      throw sim::TaggedEx{id};
+    }
+    if (c->prog.src_out == SrcOut::Error) {
+      co_return E{id};
+    }
+    co_return T{id};
+  }
+
   void MakeSource() {
     const auto& p = prog;
     const std::uint32_t id = p.src_id;
@@ -802,6 +834,9 @@ class Case final : public sim::CaseBase {
           return std::move(f);
         });
         break;
+      case Src::CoroFuture: car = CoroSource<Fut<T>>(this, id, -1); break;
+      case Src::CoroFutureOn: car = CoroSource<Fut<T>>(this, id, p.src_exec); break;
+      case Src::CoroTask: car = CoroSource<Tsk<T>>(this, id, -1); break;
       case Src::TaskValue: car = yaclib::MakeTask<T, E>(T{id}); break;
       case Src::TaskError: car = yaclib::MakeTask<T, E>(E{id}); break;
       case Src::TaskVoid: car = yaclib::MakeTask<Unit, E>(); break;
@@ -929,11 +964,24 @@ class Case final : public sim::CaseBase {
         });
         Final<V>(std::move(f).Get(), "Get of an eager future whose callback returned the task");
       } break;
+      case Start::CoAwait:
+        Final<V>(AwaitIt<V>(std::move(t)).Get(), "Get of a coroutine that co_awaited the task");
+        break;
       default: {
         SIM_FAULT("task_dropped_unstarted");
         auto dead = std::move(t);
         (void)dead;
       } break;
+    }
+  }
+
+  template <typename V>
+  static Fut<V> AwaitIt(Tsk<V> t) {
+    if constexpr (std::is_void_v<V>) {
+      co_await std::move(t);
+      co_return {};
+    } else {
+      co_return co_await std::move(t);
     }
   }
 
@@ -1091,7 +1139,7 @@ class Case final : public sim::CaseBase {
     std::uint8_t cur_exec = p.src_exec;
     bool cur_proxied = src_proxied;
     Outcome in = SrcOutcome(p);
-    const bool run_src = p.src == Src::RunT || p.src == Src::RunVoid || p.src == Src::RunInline || p.src == Src::RunAsync || p.src == Src::ScheduleT ||
+    const bool run_src = p.src == Src::RunT || p.src == Src::RunVoid || p.src == Src::RunInline || p.src == Src::RunAsync || p.src == Src::CoroTask || p.src == Src::ScheduleT ||
                          p.src == Src::ScheduleInline || p.src == Src::ScheduleVoid || p.src == Src::LazyContractNow || p.src == Src::LazyContractLater;
     if (p.src == Src::ReadyVoid || p.src == Src::RunVoid || p.src == Src::TaskVoid || p.src == Src::ScheduleVoid) {
       if (in.kind == OKind::Value) {
@@ -1118,6 +1166,14 @@ class Case final : public sim::CaseBase {
     }
     // source submission
     const bool src_submits = p.lazy ? true : (p.src == Src::RunT || p.src == Src::RunVoid || p.src == Src::RunInline || p.src == Src::RunAsync);
+    if (p.src == Src::CoroFuture || p.src == Src::CoroFutureOn) {
+      // an eager coroutine starts running at once (logged before any executor hop); On(e) is one submission to e and a
+      // refusal completes the coroutine with StopError
+      m.invoked.push_back(Invocation{-1, Outcome{}, -1, 0});
+      if (p.src == Src::CoroFutureOn && Rejected(p.src_exec, m)) {
+        in = {OKind::Stopped, 0};
+      }
+    }
     if (src_submits) {
       bool rejected = never_started;
       if (!never_started && cur_proxied) {
